@@ -756,6 +756,10 @@ class Event:
     def abort(cls) -> Event:
         return cls('_ctrl', 'abort')
 
+    @classmethod
+    def shutdown(cls) -> Event:
+        return cls('_ctrl', 'shutdown')
+
     @staticmethod
     def typecheck(etype: Any) -> None:
         if isinstance(etype, str):
